@@ -15,6 +15,7 @@ import (
 	"fmt"
 	"os"
 	"path/filepath"
+	"sort"
 	"strings"
 	"sync"
 	"time"
@@ -28,6 +29,8 @@ type drunDeliverer struct {
 	mu     sync.Mutex
 	script map[string][]dres // key: message id + "\x00" + target url
 	sends  map[string]int
+	// what every send carried: sorted "name=value" header list and the body, per key
+	carried map[string][]string
 }
 
 func (d *drunDeliverer) Deliver(ctx context.Context, dl dispatcher.Delivery) dispatcher.Result {
@@ -35,6 +38,12 @@ func (d *drunDeliverer) Deliver(ctx context.Context, dl dispatcher.Delivery) dis
 	d.mu.Lock()
 	n := d.sends[key]
 	d.sends[key] = n + 1
+	var hs []string
+	for k, v := range dl.Header {
+		hs = append(hs, k+"="+strings.Join(v, ","))
+	}
+	sort.Strings(hs)
+	d.carried[key] = append(d.carried[key], strings.Join(hs, ";")+"|"+string(dl.Body))
 	beh := d.script[key]
 	d.mu.Unlock()
 	if n < len(beh) {
@@ -114,7 +123,7 @@ func cmdDRun(args []string) error {
 			}
 			store = s
 		}
-		dl := &drunDeliverer{script: map[string][]dres{}, sends: map[string]int{}}
+		dl := &drunDeliverer{script: map[string][]dres{}, sends: map[string]int{}, carried: map[string][]string{}}
 		type mspec struct {
 			ID     string `json:"id"`
 			Target string `json:"target"`
@@ -124,6 +133,9 @@ func cmdDRun(args []string) error {
 			Final  string `json:"final"`
 			Atts   []int  `json:"attempts"`
 			Reason string `json:"attemptDeadReasons"`
+			// Stored: what the message was stored with ("name=value;…|body"); Carried: the same of every send
+			Stored  string   `json:"stored"`
+			Carried []string `json:"carried"`
 		}
 		var msgs []*mspec
 		nm := 2 + r.intn(6)
@@ -141,7 +153,21 @@ func cmdDRun(args []string) error {
 					m.Beh = []dres{}
 				}
 				dl.script[m.ID+"\x00"+m.Target] = m.Beh
-				if err := store.Enqueue(queue.Envelope{ID: m.ID + "@" + fmt.Sprint(len(msgs)), Route: "/d", Target: ts.url, Payload: []byte("x")}); err != nil {
+				// every message has its own payload and its own set of header names
+				hdr := map[string]string{"X-Msg": m.ID}
+				for _, hn := range []string{"X-Tenant", "X-Sig", "X-Trace", "Content-Type"} {
+					if r.chance(40) {
+						hdr[hn] = fmt.Sprintf("%s-of-%s", strings.ToLower(hn), m.ID)
+					}
+				}
+				body := fmt.Sprintf("payload-of-%s-%d", m.ID, len(msgs))
+				var hs []string
+				for k, v := range hdr {
+					hs = append(hs, k+"="+v)
+				}
+				sort.Strings(hs)
+				m.Stored = strings.Join(hs, ";") + "|" + body
+				if err := store.Enqueue(queue.Envelope{ID: m.ID + "@" + fmt.Sprint(len(msgs)), Route: "/d", Target: ts.url, Payload: []byte(body), Headers: hdr}); err != nil {
 					return err
 				}
 				msgs = append(msgs, m)
@@ -166,6 +192,10 @@ func cmdDRun(args []string) error {
 		for i, m := range msgs {
 			id := m.ID + "@" + fmt.Sprint(i)
 			m.Sends = dl.sends[id+"\x00"+m.Target]
+			m.Carried = dl.carried[id+"\x00"+m.Target]
+			if m.Carried == nil {
+				m.Carried = []string{}
+			}
 			look, _ := store.LookupMessages(queue.MessageLookupRequest{IDs: []string{id}})
 			switch {
 			case len(look.Items) == 0:
